@@ -97,6 +97,8 @@ type Model struct {
 	SignedOrder []string
 	// outputs of requests the mint refused (never handed a signature, unless a later request got them signed)
 	Refused []Out
+	// mint quote (index) of the refused mint request an output belonged to, by B_
+	RefusedQuote map[string]int
 	Issued      map[string]uint64 // per keyset: sum of signatures handed out
 	Redeemed    map[string]uint64 // per keyset: sum of proofs consumed
 	Steps       int
@@ -318,6 +320,12 @@ func (w *World) MintTokens(q *MMintQuote, outs []Out, signature string) (cashu.B
 	w.M.Steps++
 	if err != nil {
 		w.noteRefused(outs)
+		if w.M.RefusedQuote == nil {
+			w.M.RefusedQuote = map[string]int{}
+		}
+		for _, o := range outs {
+			w.M.RefusedQuote[o.Msg.B_] = q.Idx
+		}
 		return nil, err
 	}
 	var total uint64
@@ -393,10 +401,8 @@ func (w *World) AcceptInputs(op string, inputs cashu.Proofs, to PState, quote in
 	for _, in := range inputs {
 		mp := w.M.Proofs[in.Secret]
 		if seen[in.Secret] {
+			// (the value of a secret is redeemed once, however often the request lists it)
 			w.Flag("C01", "duplicate_secret_in_request_accepted|"+op, "secret %s counted twice in one %s", short(in.Secret), op)
-			if to == Spent {
-				w.M.Redeemed[in.Id] += in.Amount
-			}
 			continue
 		}
 		seen[in.Secret] = true
@@ -444,9 +450,11 @@ func (w *World) Swap(inputs cashu.Proofs, outs []Out) (cashu.BlindedSignatures, 
 		return nil, err
 	}
 	var inSum, outSum uint64
+	counted := map[string]bool{}
 	for _, in := range inputs {
-		if mp := w.M.Proofs[in.Secret]; mp != nil {
-			inSum += mp.P.Amount // true value
+		if mp := w.M.Proofs[in.Secret]; mp != nil && !counted[in.Secret] {
+			counted[in.Secret] = true
+			inSum += mp.P.Amount // true value, each secret once
 		}
 	}
 	for _, o := range outs {
@@ -556,8 +564,10 @@ func (w *World) MeltTokens(q *MMeltQuote, inputs cashu.Proofs) (storage.MeltQuot
 		return r, err
 	}
 	var inSum uint64
+	counted := map[string]bool{}
 	for _, in := range inputs {
-		if mp := w.M.Proofs[in.Secret]; mp != nil {
+		if mp := w.M.Proofs[in.Secret]; mp != nil && !counted[in.Secret] {
+			counted[in.Secret] = true
 			inSum += mp.P.Amount
 		}
 	}
